@@ -9,7 +9,8 @@ SWAP_OPS = [['+', '-', '*'], ['<', '<=', '>', '>='], ['==', '!='], ['&&', '||']]
 
 def load_samples():
     out = {}
-    for d, prefix in (('/repo/tests', 'tests'), ('/repo/std', 'std')):
+    repo = os.environ.get('VERIF_REPO', '/repo')
+    for d, prefix in ((repo + '/tests', 'tests'), (repo + '/std', 'std')):
         for fn in sorted(os.listdir(d)):
             if fn.endswith('.sam'):
                 out['%s.%s' % (prefix, fn[:-4])] = open(os.path.join(d, fn)).read()
